@@ -12,7 +12,12 @@ pub fn check_spec(rep: &mut Report, spec: &Spec, seed: u64) {
     let (class, why) = classify(&states);
     rep.hist("spec_class", &format!("{:?}:{}", class, why));
     rep.hist("spec_states", &format!("{}", states.len().min(20)));
-    let res = match build_spec(spec) {
+    // every fourth specification: build() called twice on one builder, the second result is judged
+    let twice = fnv(&case) % 4 == 0;
+    if twice {
+        rep.inc("second_build_on_same_builder_judged");
+    }
+    let res = match if twice { build_spec_twice(spec) } else { build_spec(spec) } {
         Ok(r) => r,
         Err(msg) => {
             rep.violation("build-panic", &format!("build-panic:{}", why), format!("build() panicked on a {} specification: {}", why, msg), "autospec", &case, seed);
